@@ -2,6 +2,7 @@
 package main
 
 import (
+	"encoding/json"
 	"fmt"
 	"os"
 	"path/filepath"
@@ -10,6 +11,7 @@ import (
 	"time"
 
 	"verif/internal/chk"
+	"verif/internal/mon"
 	"verif/internal/ref"
 	"verif/internal/run"
 	"verif/internal/spec"
@@ -123,7 +125,7 @@ func preSet(s *spec.Spec) map[string]bool {
 
 func replay(args []string) {
 	if len(args) < 1 {
-		fmt.Println("usage: vcheck replay <file>")
+		fmt.Println("usage: vcheck replay <file> [repetitions]")
 		os.Exit(64)
 	}
 	b, err := os.ReadFile(args[0])
@@ -131,7 +133,75 @@ func replay(args []string) {
 		fmt.Println(err)
 		os.Exit(2)
 	}
-	fmt.Println("Replay file (self-contained description of the failing case):")
-	os.Stdout.Write(b)
-	fmt.Println("\nTo re-execute: run the property's check with the same VERIF_SEED and tier; the case list is determined by them.")
+	var rf struct {
+		Property  string `json:"property"`
+		Signature string `json:"signature"`
+		What      string `json:"what"`
+		Seed      int64  `json:"seed"`
+		Tier      string `json:"tier"`
+		Replay    struct {
+			Spec  *spec.Spec         `json:"spec"`
+			Cfg   Cfg                `json:"cfg"`
+			Behav vproto.Behaviours  `json:"behav"`
+			Crash *struct {
+				Point string `json:"point"`
+				Who   string `json:"who"`
+				N     int    `json:"n"`
+			} `json:"crash"`
+			KillAt int `json:"kill_at_trace_line"`
+		} `json:"replay"`
+	}
+	if err := json.Unmarshal(b, &rf); err != nil {
+		fmt.Println("cannot parse replay file:", err)
+		os.Exit(2)
+	}
+	fmt.Printf("property %s, signature %s (seed %d, tier %s)\n%s\n\n", rf.Property, rf.Signature, rf.Seed, rf.Tier, rf.What)
+	if rf.Replay.Spec == nil {
+		fmt.Println("this replay file carries no workflow spec (in-process case); re-run the check with the same VERIF_SEED and tier: the case list is determined by them.")
+		return
+	}
+	reps := 1
+	if len(args) > 1 {
+		reps, _ = strconv.Atoi(args[1])
+	}
+	c := chk.New("replay", "exploration", []string{"--tier", rf.Tier})
+	c.Build(rf.Replay.Cfg.Race)
+	for r := 0; r < reps; r++ {
+		root := c.CaseDir()
+		cfg := rf.Replay.Cfg
+		if rf.Replay.Crash != nil {
+			cfg.Crash = fmt.Sprintf("%s|%s|%d", rf.Replay.Crash.Point, rf.Replay.Crash.Who, rf.Replay.Crash.N)
+		}
+		env := cfg.env()
+		bin := c.Bin
+		if cfg.Race {
+			bin = c.RaceBin
+			env["GORACE"] = "halt_on_error=0 log_path=" + filepath.Join(root, "meta", "race")
+		}
+		cs := &run.Case{Root: root, Bin: bin, Spec: rf.Replay.Spec, Env: env, Behav: rf.Replay.Behav, KillAtTraceLine: rf.Replay.KillAt}
+		res := cs.Run()
+		fmt.Printf("--- execution %d: exit=%d signal=%q returned=%v hang=%q trace-events=%d hook-events=%d\n", r+1, res.Exit, res.Signal, res.Returned, res.Hang, len(res.Trace), len(res.Events))
+		ti := mon.Index(res.Trace)
+		var keys []string
+		for k := range ti.Starts {
+			keys = append(keys, fmt.Sprintf("%s x%d (ends ok: %v)", k, len(ti.Starts[k]), ti.EndOK(k)))
+		}
+		sort.Strings(keys)
+		for _, k := range keys {
+			fmt.Println("   task", k)
+		}
+		snap := run.Snap(res.Wd)
+		for _, f := range snap.Files() {
+			fmt.Println("   file", f, snap[f].Size)
+		}
+		for _, l := range snap.Leftovers() {
+			fmt.Println("   leftover", l)
+		}
+		for _, rr := range mon.ParseRaceLogs(filepath.Join(root, "meta", "race")) {
+			fmt.Println("   race", rr.Sig)
+		}
+		fmt.Println("   output tail:", tail(res.Output(), 600))
+	}
+	fmt.Println("\nThe verdict itself is produced by the property's check: run it with the same VERIF_SEED and tier to re-judge this case with its oracle.")
+	os.RemoveAll(c.Scratch)
 }
